@@ -181,6 +181,20 @@ impl Adapter for SonicA {
     }
     fn comm_lin(a: Fr, c1: &Cm<Self>, b: Fr, c2: &Cm<Self>) -> Option<Cm<Self>> { Some(ark_poly_commit::kzg10::Commitment(g1_lin(a, &c1.0, b, &c2.0))) }
     fn comm_is_identity(c: &Cm<Self>) -> Option<bool> { use ark_ec::AffineRepr; Some(c.0.is_zero()) }
+    /// C08: without bound sum_i p_i*powers_of_g[i]; with bound d sum_i p_i*shifted_powers_of_g[max_bound - d + i]
+    fn reference_commitment(ck: &CK<Self>, p: &UniPoly, b: Option<usize>, cm: &Cm<Self>, _st: &St<Self>) -> Option<bool> {
+        use ark_ec::{AffineRepr, CurveGroup};
+        let mut acc = <ark_bls12_381::G1Affine as AffineRepr>::Group::default();
+        match b {
+            None => { for (i, c) in p.coeffs.iter().enumerate() { acc += ck.powers_of_g[i].into_group() * c; } }
+            Some(d) => {
+                let sp = ck.shifted_powers_of_g.as_ref()?;
+                let maxb = *ck.enforced_degree_bounds.as_ref()?.last()?;
+                for (i, c) in p.coeffs.iter().enumerate() { acc += sp[maxb - d + i].into_group() * c; }
+            }
+        }
+        Some(acc.into_affine() == cm.0)
+    }
     fn mutate_comm(kind: &str, cm: &LabeledCommitment<Cm<Self>>, args: &[String]) -> Option<LabeledCommitment<Cm<Self>>> {
         let b = cm.degree_bound();
         match kind {
@@ -211,6 +225,23 @@ impl Adapter for IpaA {
         Some(ark_poly_commit::ipa_pc::Commitment { comm: ed_lin(a, &c1.comm, b, &c2.comm), shifted_comm: shifted })
     }
     fn comm_is_identity(c: &Cm<Self>) -> Option<bool> { use ark_ec::AffineRepr; Some(c.comm.is_zero() && c.shifted_comm.map(|s| s.is_zero()).unwrap_or(true)) }
+    /// C08: comm = sum_i p_i*comm_key[i]; shifted = sum_i p_i*comm_key[i + supported - bound]  (non-hiding; naive sums)
+    fn reference_commitment(ck: &CK<Self>, p: &Self::P, b: Option<usize>, cm: &Cm<Self>, _st: &St<Self>) -> Option<bool> {
+        use ark_ec::{AffineRepr, CurveGroup};
+        let naive = |off: usize| -> EdwardsAffine {
+            let mut acc = <EdwardsAffine as AffineRepr>::Group::default();
+            for (i, c) in p.coeffs.iter().enumerate() { acc += ck.comm_key[i + off].into_group() * c; }
+            acc.into_affine()
+        };
+        let s = ck.comm_key.len() - 1;
+        let ok_plain = naive(0) == cm.comm;
+        let ok_shift = match (b, &cm.shifted_comm) {
+            (Some(d), Some(sc)) => naive(s - d) == *sc,
+            (None, None) => true,
+            _ => false,
+        };
+        Some(ok_plain && ok_shift)
+    }
     fn mutate_comm(kind: &str, cm: &LabeledCommitment<Cm<Self>>, args: &[String]) -> Option<LabeledCommitment<Cm<Self>>> {
         let mut c = cm.commitment().clone();
         let mut b = cm.degree_bound();
@@ -298,6 +329,13 @@ impl Adapter for Pst13A {
     fn make_point(toks: &[String]) -> Vec<Fr> { fs_from_strs(toks) }
     fn comm_lin(a: Fr, c1: &Cm<Self>, b: Fr, c2: &Cm<Self>) -> Option<Cm<Self>> { marlin_comm_lin(a, c1, b, c2) }
     fn comm_is_identity(c: &Cm<Self>) -> Option<bool> { use ark_ec::AffineRepr; Some(c.comm.0.is_zero()) }
+    /// C08: sum over the terms of coefficient * powers_of_g[term]
+    fn reference_commitment(ck: &CK<Self>, p: &MVPoly, _b: Option<usize>, cm: &Cm<Self>, _st: &St<Self>) -> Option<bool> {
+        use ark_ec::{AffineRepr, CurveGroup};
+        let mut acc = <ark_bls12_381::G1Affine as AffineRepr>::Group::default();
+        for (c, t) in p.terms() { acc += ck.powers_of_g.get(t)?.into_group() * c; }
+        Some(acc.into_affine() == cm.comm.0)
+    }
     fn mutate_proof(kind: &str, pf: &Pf<Self>, args: &[String]) -> Option<Pf<Self>> {
         let mut p = pf.clone();
         let j: usize = args.get(0).and_then(|x| x.parse().ok()).unwrap_or(0);
@@ -324,7 +362,7 @@ impl Adapter for HyraxA {
     fn always_blinded() -> bool { true }
     /// C08: every row commitment is sum_j M[i][j]*com_key[j] + r_i*h with M[row][col] = evals[col*dim + row]
     /// (naive double-and-add sums, row randomness read from the serialized commitment state)
-    fn reference_commitment(ck: &CK<Self>, p: &Self::P, cm: &Cm<Self>, st: &St<Self>) -> Option<bool> {
+    fn reference_commitment(ck: &CK<Self>, p: &Self::P, _b: Option<usize>, cm: &Cm<Self>, st: &St<Self>) -> Option<bool> {
         use ark_ec::{AffineRepr, CurveGroup};
         use ark_poly::MultilinearExtension;
         use ark_serialize::CanonicalDeserialize;
@@ -440,12 +478,24 @@ fn mutate_lincode_proof(kind: &str, pf: &Vec<ark_poly_commit::linear_codes::LinC
 }
 
 pub struct LigeroUniA;
+/// Ligero parameters other than the ones hard-wired in `setup` (security level, rate, well-formedness switch)
+fn ligero_params(c: &Case) -> Option<ark_poly_commit::linear_codes::LigeroPCParams<Fr, MTConfig, ColH<Fr>>> {
+    if !c.has("lig") { return None; }
+    let v = c.usizes("lig");   // sec_param rho_inv check_well_formedness
+    Some(ark_poly_commit::linear_codes::LigeroPCParams::new(v[0], v[1], v[2] == 1, (), (), ()))
+}
+
 impl Adapter for LigeroUniA {
     type F = Fr; type P = UniPoly; type PC = LigeroUniPC;
     fn make_poly(toks: &[String], _nv: Option<usize>) -> UniPoly { uni_poly(toks) }
     fn make_point(toks: &[String]) -> Fr { f_from_str(&toks[0]) }
+    fn setup(c: &Case) -> Outcome<UP<Self>> {
+        if let Some(p) = ligero_params(c) { return Outcome::Ok(p); }
+        let mut rng = CountingRng::new(c.u64_1("setup_seed"));
+        guard_any(|| LigeroUniPC::setup(c.usize1("max_degree"), opt_usize(c.str1("num_vars")), &mut rng))
+    }
     fn mutate_proof(kind: &str, pf: &Pf<Self>, args: &[String]) -> Option<Pf<Self>> { mutate_lincode_proof(kind, pf, args) }
-    fn reference_commitment(ck: &CK<Self>, p: &UniPoly, cm: &Cm<Self>, _st: &St<Self>) -> Option<bool> {
+    fn reference_commitment(ck: &CK<Self>, p: &UniPoly, _b: Option<usize>, cm: &Cm<Self>, _st: &St<Self>) -> Option<bool> {
         reference_root::<UnivariateLigero<Fr, MTConfig, UniPoly, ColH<Fr>>, UniPoly>(ck, p.coeffs.clone(), cm)
     }
 }
@@ -454,8 +504,13 @@ impl Adapter for LigeroMLA {
     type F = Fr; type P = SparseMultilinearExtension<Fr>; type PC = LigeroMLPC;
     fn make_poly(toks: &[String], nv: Option<usize>) -> Self::P { sparse_ml(toks, nv) }
     fn make_point(toks: &[String]) -> Vec<Fr> { fs_from_strs(toks) }
+    fn setup(c: &Case) -> Outcome<UP<Self>> {
+        if let Some(p) = ligero_params(c) { return Outcome::Ok(p); }
+        let mut rng = CountingRng::new(c.u64_1("setup_seed"));
+        guard_any(|| LigeroMLPC::setup(c.usize1("max_degree"), opt_usize(c.str1("num_vars")), &mut rng))
+    }
     fn mutate_proof(kind: &str, pf: &Pf<Self>, args: &[String]) -> Option<Pf<Self>> { mutate_lincode_proof(kind, pf, args) }
-    fn reference_commitment(ck: &CK<Self>, p: &Self::P, cm: &Cm<Self>, _st: &St<Self>) -> Option<bool> {
+    fn reference_commitment(ck: &CK<Self>, p: &Self::P, _b: Option<usize>, cm: &Cm<Self>, _st: &St<Self>) -> Option<bool> {
         use ark_poly::MultilinearExtension;
         reference_root::<MultilinearLigero<Fr, MTConfig, SparseMultilinearExtension<Fr>, ColH<Fr>>, SparseMultilinearExtension<Fr>>(ck, p.to_evaluations(), cm)
     }
@@ -465,8 +520,18 @@ impl Adapter for BrakedownMLA {
     type F = Fr; type P = SparseMultilinearExtension<Fr>; type PC = BrakedownMLPC;
     fn make_poly(toks: &[String], nv: Option<usize>) -> Self::P { sparse_ml(toks, nv) }
     fn make_point(toks: &[String]) -> Vec<Fr> { fs_from_strs(toks) }
+    fn setup(c: &Case) -> Outcome<UP<Self>> {
+        let mut rng = CountingRng::new(c.u64_1("setup_seed"));
+        if c.has("lig") {
+            // same defaults as `setup`, with the well-formedness switch chosen by the scenario
+            let wf = c.usizes("lig")[2] == 1;
+            let nv = opt_usize(c.str1("num_vars")).unwrap();
+            return guard_any(|| Ok::<_, ()>(ark_poly_commit::linear_codes::BrakedownPCParams::default(&mut rng, 1usize << nv, wf, (), (), ())));
+        }
+        guard_any(|| BrakedownMLPC::setup(c.usize1("max_degree"), opt_usize(c.str1("num_vars")), &mut rng))
+    }
     fn mutate_proof(kind: &str, pf: &Pf<Self>, args: &[String]) -> Option<Pf<Self>> { mutate_lincode_proof(kind, pf, args) }
-    fn reference_commitment(ck: &CK<Self>, p: &Self::P, cm: &Cm<Self>, _st: &St<Self>) -> Option<bool> {
+    fn reference_commitment(ck: &CK<Self>, p: &Self::P, _b: Option<usize>, cm: &Cm<Self>, _st: &St<Self>) -> Option<bool> {
         use ark_poly::MultilinearExtension;
         reference_root::<MultilinearBrakedown<Fr, MTConfig, SparseMultilinearExtension<Fr>, ColH<Fr>>, SparseMultilinearExtension<Fr>>(ck, p.to_evaluations(), cm)
     }
